@@ -5,9 +5,18 @@
      tree            rose tree of the marginal tree: node id, observation (NotSample | Missing |
                      Obs g) and children in left_child/right_sib order; [roots] = children of the
                      virtual root
-     mm_rose K roots anc   the model of tsk_tree_map_mutations (K = num_alleles, anc = Some a iff
-                     TSK_MM_FIXED_ANCESTRAL_STATE): Some (ancestral state, transitions
-                     (node, parent index, new state)), None = the C loop does not terminate
+     mm_model K roots anc   the model of tsk_tree_map_mutations AS THE CODE UNDER TEST HAS IT
+                     (K = num_alleles, anc = Some a iff TSK_MM_FIXED_ANCESTRAL_STATE): Some
+                     (ancestral state, transitions (node, parent index, new state)), None = the C
+                     loop does not terminate.  [mm_model] selects between [mm_rose] (the pinned
+                     code: a sample with missing data is "all bits" and skips the Hartigan step,
+                     finding F2) and [mm_rose_fixed] = mm_rose on [demote]d trees (the repaired
+                     code, fix commit a5ef628) through the fact [c20_missing_through_hartigan],
+                     re-extracted from trees.c on every run; C20/CurrentProofs.v proves
+                     [current_is_repaired] by computation on that fact, so these theorems stop
+                     compiling if the code falls back to the pinned shape.
+     c_map_mutations ta g anc   the same over the tree arrays (L2); [c_map_mutations_gen fx] with
+                     the variant explicit
      ltree           a labeling: one state per node; [consistent] = same shape and every Obs g
                      node carries g; [changes] = edges with different states;
                      [forest_changes a ls] additionally counts every root whose state is not a
@@ -15,159 +24,84 @@
    Non-vacuity examples: C20/Examples.v. *)
 From Coq Require Import List ZArith NArith Bool.
 From TskVerif Require Import Base.Common Gen.Generated C20.Model C20.Spec C20.HartiganProofs C20.TopProofs
-  C20.BoundProofs C20.StackProofs C20.FixProofs C20.ArrayProofs C20.EndToEnd C20.Refuted C20.Examples.
+  C20.BoundProofs C20.StackProofs C20.FixProofs C20.ArrayProofs C20.EndToEnd C20.CurrentProofs
+  C20.Refuted C20.Examples.
 Import ListNotations.
 
-(* (a) Hartigan's invariant for the sets the code computes (polytomies, unary nodes,
-   non-sample leaves, missing leaves, internal samples with a known state): every
-   consistent labeling of the subtree costs at least m(t), at least m(t)+1 if its root state is
-   not in the optimal set, and every state of the optimal set is attained with cost m(t). *)
+(* (a) Hartigan's invariant for the sets the code computes — every tree (polytomies, unary
+   nodes, non-sample leaves, missing leaves AND missing internal samples, internal samples
+   with a known state): every consistent labeling of the subtree costs at least m, at least
+   m+1 if its root state is not in the optimal set; every state of the set is attained with
+   cost m.  ([demote t]: the tree as the repaired code treats it.) *)
 Theorem hartigan_invariant : forall (K : nat) (t : tree),
-  (1 <= K <= 64)%nat -> obs_lt K t = true -> no_internal_missing t = true ->
+  (1 <= K <= 64)%nat -> obs_lt K t = true ->
   (forall l, consistent t l = true ->
-     (mcost K t + (if memx K (opt_set K t) (lroot l) then 0 else 1) <= changes l)%nat) /\
-  (forall s, (s < N.of_nat K)%N -> N.testbit (opt_set K t) s = true ->
-     exists l, consistent t l = true /\ lroot l = s /\ changes l = mcost K t).
-Proof. exact hartigan_invariant_lemma. Qed.
+     (mcost K (demote t) + (if memx K (opt_set K (demote t)) (lroot l) then 0 else 1) <= changes l)%nat) /\
+  (forall s, (s < N.of_nat K)%N -> N.testbit (opt_set K (demote t)) s = true ->
+     exists l, consistent t l = true /\ lroot l = s /\ changes l = mcost K (demote t)).
+Proof. exact hartigan_invariant_current. Qed.
 
 (* the model terminates on every valid input *)
 Theorem mm_total : forall (K : nat) (roots : list tree) (anc : option N),
   (1 <= K <= 64)%nat -> forallb (obs_lt K) roots = true ->
-  exists a tr, mm_rose K roots anc = Some (a, tr).
-Proof. exact mm_rose_total. Qed.
+  exists a tr, mm_model K roots anc = Some (a, tr).
+Proof. exact mm_total_current. Qed.
 
 (* (b) painting the returned ancestral state and transitions by the nearest-mutation rule
-   gives every sample with a non-missing observation its observed state — for EVERY tree
-   with distinct node ids, including internal samples with missing data *)
+   gives every sample with a non-missing observation its observed state *)
 Theorem mm_reproduces : forall (K : nat) (roots : list tree) (anc : option N) (a : N) (tr : list trans),
   nodupb (forest_ids roots) = true ->
-  mm_rose K roots anc = Some (a, tr) ->
+  mm_model K roots anc = Some (a, tr) ->
   consistent_list roots (map (fun r => paint tr r a) roots) = true.
-Proof. exact mm_reproduces_lemma. Qed.
+Proof. exact mm_reproduces_current. Qed.
 
-(* (c) the number of returned transitions is the minimum of forest_changes over all labelings
+(* (c) the number of returned transitions is the minimum of forest_changes over ALL labelings
    consistent with the data (all ancestral states when none is fixed, the fixed one
-   otherwise), PROVIDED no internal sample has a missing genotype (finding F2) *)
+   otherwise), and the minimum is attained — every tree, no proviso *)
 Theorem mm_optimal : forall (K : nat) (roots : list tree) (anc : option N) (a : N) (tr : list trans),
   (1 <= K <= 64)%nat -> forallb (obs_lt K) roots = true ->
-  forallb no_internal_missing roots = true ->
   match anc with Some x => (x < N.of_nat K)%N | None => True end ->
-  mm_rose K roots anc = Some (a, tr) ->
+  mm_model K roots anc = Some (a, tr) ->
   (forall a' ls, match anc with Some x => a' = x | None => True end ->
       consistent_list roots ls = true -> (length tr <= forest_changes a' ls)%nat) /\
   (exists ls, consistent_list roots ls = true /\ forest_changes a ls = length tr).
-Proof. exact mm_optimal_lemma. Qed.
-
-(* (d) F2: without that proviso the faithful model is not optimal ... *)
-Theorem mm_optimal_internal_missing_refuted :
-  exists (K : nat) (roots : list tree) (a : N) (tr : list trans) (ls : list ltree),
-    forallb (obs_lt K) roots = true /\ nodupb (forest_ids roots) = true /\
-    mm_rose K roots None = Some (a, tr) /\
-    consistent_list roots ls = true /\
-    (forest_changes a ls < length tr)%nat.
-Proof. exact mm_optimal_internal_missing_refuted_lemma. Qed.
-
-(* ... and does not use the oldest node of a unary chain *)
-Theorem mm_oldest_internal_missing_refuted :
-  exists (K : nat) (roots : list tree) (a : N) (tr : list trans),
-    forallb (obs_lt K) roots = true /\ nodupb (forest_ids roots) = true /\
-    mm_rose K roots None = Some (a, tr) /\
-    forallb (unary_ok false tr) roots = false.
-Proof. exact mm_oldest_internal_missing_refuted_lemma. Qed.
+Proof. exact mm_optimal_current. Qed.
 
 (* (e) order valid for a mutation table: every parent index is -1 or smaller than the
    mutation's own index; it is the index of the transition on the nearest ancestor that
    carries one; at most one transition per node *)
 Theorem mm_order_valid : forall (K : nat) (roots : list tree) (anc : option N) (a : N) (tr : list trans),
   nodupb (forest_ids roots) = true ->
-  mm_rose K roots anc = Some (a, tr) ->
+  mm_model K roots anc = Some (a, tr) ->
   parents_before tr 0 = true /\
   forallb (fun r => parents_ok tr r (-1)) roots = true /\
   nodupb (map tr_node tr) = true.
-Proof. exact mm_order_valid_lemma. Qed.
+Proof. exact mm_order_valid_current. Qed.
 
-(* (f) no transition sits on the only child of a node whose own state is unconstrained:
-   strict = true counts non-sample parents only and holds for every tree; strict = false
-   also counts samples with missing data and needs the F2 proviso *)
+(* (f) no transition sits on the only child of a node whose own state is unconstrained
+   (a non-sample node or a sample with missing data): oldest node of a unary chain *)
 Theorem mm_oldest_on_unary_chain :
-  forall (K : nat) (roots : list tree) (anc : option N) (a : N) (tr : list trans) (strict : bool),
+  forall (K : nat) (roots : list tree) (anc : option N) (a : N) (tr : list trans),
   (1 <= K <= 64)%nat -> forallb (obs_lt K) roots = true ->
   match anc with Some x => (x < N.of_nat K)%N | None => True end ->
   nodupb (forest_ids roots) = true ->
-  (strict = true \/ forallb no_internal_missing roots = true) ->
-  mm_rose K roots anc = Some (a, tr) ->
-  forallb (unary_ok strict tr) roots = true.
-Proof. exact mm_oldest_lemma. Qed.
+  mm_model K roots anc = Some (a, tr) ->
+  forallb (unary_ok false tr) roots = true.
+Proof. exact mm_oldest_current. Qed.
 
 (* (g) at most one transition per sample with a non-missing observation, hence at most
-   num_samples: the C buffer of trees.c 7238 is never overrun (every tree, F2 included) *)
+   num_samples: the C buffer of trees.c 7238 is never overrun *)
 Theorem transitions_bounded : forall (K : nat) (roots : list tree) (anc : option N) (a : N) (tr : list trans),
   (1 <= K <= 64)%nat -> forallb (obs_lt K) roots = true ->
   match anc with Some x => (x < N.of_nat K)%N | None => True end ->
-  mm_rose K roots anc = Some (a, tr) ->
+  mm_model K roots anc = Some (a, tr) ->
   (length tr <= forest_num_obs roots)%nat.
-Proof. exact transitions_bounded_lemma. Qed.
+Proof. exact transitions_bounded_current. Qed.
 
 (* the explicit preorder stack of the C code computes what the structural recursion does *)
 Theorem mm_stack_eq : forall (K : nat) (roots : list tree) (anc : option N) (r : N * list trans),
-  mm_rose K roots anc = Some r -> mm_stack K roots anc = Ok r.
-Proof. exact mm_stack_eq_lemma. Qed.
-
-(* the proposed repair of F2 (missing samples go through the Hartigan step like
-   non-sample nodes): optimal and oldest-on-unary-chain for EVERY tree *)
-Theorem mm_fixed_optimal : forall (K : nat) (roots : list tree) (anc : option N) (a : N) (tr : list trans),
-  (1 <= K <= 64)%nat -> forallb (obs_lt K) roots = true ->
-  match anc with Some x => (x < N.of_nat K)%N | None => True end ->
-  mm_rose_fixed K roots anc = Some (a, tr) ->
-  (forall a' ls, match anc with Some x => a' = x | None => True end ->
-      consistent_list roots ls = true -> (length tr <= forest_changes a' ls)%nat) /\
-  (exists ls, consistent_list roots ls = true /\ forest_changes a ls = length tr).
-Proof. exact mm_fixed_optimal_lemma. Qed.
-
-Theorem mm_fixed_oldest_on_unary_chain :
-  forall (K : nat) (roots : list tree) (anc : option N) (a : N) (tr : list trans),
-  (1 <= K <= 64)%nat -> forallb (obs_lt K) roots = true ->
-  match anc with Some x => (x < N.of_nat K)%N | None => True end ->
-  nodupb (forest_ids roots) = true ->
-  mm_rose_fixed K roots anc = Some (a, tr) ->
-  forallb (unary_ok false tr) roots = true.
-Proof. exact mm_fixed_oldest_lemma. Qed.
-
-Theorem mm_fixed_reproduces : forall (K : nat) (roots : list tree) (anc : option N) (a : N) (tr : list trans),
-  nodupb (forest_ids roots) = true ->
-  mm_rose_fixed K roots anc = Some (a, tr) ->
-  consistent_list roots (map (fun r => paint tr r a) roots) = true.
-Proof. exact mm_fixed_reproduces_lemma. Qed.
-
-(* The same three statements for [mm_model], the variant of the algorithm the code under
-   test has: [c20_missing_through_hartigan] is re-extracted from trees.c on every run
-   (false on the pinned commit; true once the repair of F2 is applied), so the proviso
-   disappears by itself when the code is repaired. *)
-Theorem mm_current_optimal : forall (K : nat) (roots : list tree) (anc : option N) (a : N) (tr : list trans),
-  (1 <= K <= 64)%nat -> forallb (obs_lt K) roots = true ->
-  (c20_missing_through_hartigan = true \/ forallb no_internal_missing roots = true) ->
-  match anc with Some x => (x < N.of_nat K)%N | None => True end ->
-  mm_model K roots anc = Some (a, tr) ->
-  (forall a' ls, match anc with Some x => a' = x | None => True end ->
-      consistent_list roots ls = true -> (length tr <= forest_changes a' ls)%nat) /\
-  (exists ls, consistent_list roots ls = true /\ forest_changes a ls = length tr).
-Proof. exact mm_current_optimal_lemma. Qed.
-
-Theorem mm_current_oldest_on_unary_chain :
-  forall (K : nat) (roots : list tree) (anc : option N) (a : N) (tr : list trans),
-  (1 <= K <= 64)%nat -> forallb (obs_lt K) roots = true ->
-  (c20_missing_through_hartigan = true \/ forallb no_internal_missing roots = true) ->
-  match anc with Some x => (x < N.of_nat K)%N | None => True end ->
-  nodupb (forest_ids roots) = true ->
-  mm_model K roots anc = Some (a, tr) ->
-  forallb (unary_ok false tr) roots = true.
-Proof. exact mm_current_oldest_lemma. Qed.
-
-Theorem mm_current_reproduces : forall (K : nat) (roots : list tree) (anc : option N) (a : N) (tr : list trans),
-  nodupb (forest_ids roots) = true ->
-  mm_model K roots anc = Some (a, tr) ->
-  consistent_list roots (map (fun r => paint tr r a) roots) = true.
-Proof. exact mm_current_reproduces_lemma. Qed.
+  mm_model K roots anc = Some r -> mm_stack K (map demote roots) anc = Ok r.
+Proof. exact mm_stack_eq_current. Qed.
 
 (* L2 = L0, for both variants of the code (fx = false: the pinned code; fx = true: the repaired
    handling of missing samples).  For arrays [ta] that are consistent with the forest
@@ -176,13 +110,10 @@ Proof. exact mm_current_reproduces_lemma. Qed.
    duplicates and only flagged nodes, node ids are distinct and fit the arrays — the
    representation invariant of a tskit tree, property C01's business, evaluated on every
    generated case inside [check_case]), the C function over the arrays
-   ([c_map_mutations_gen fx]: entry checks, initialisation loop 7252-7266, explicit-stack
-   postorder of tsk_tree_postorder_from with its postorder_parent trick, Hartigan loop,
-   ancestral state choice, explicit preorder stack with transition_parent and the transition
-   counter) returns exactly what the rose-tree model returns ([mm_rose], resp.
-   [mm_rose_fixed]), so every theorem above speaks about the array code.
-   ([init_sets ... = Ok] says the genotypes passed the entry checks; [sets_nonzero] follows
-   from [mm_total]'s hypotheses.) *)
+   ([c_map_mutations_gen fx]: entry checks, initialisation loop, explicit-stack postorder of
+   tsk_tree_postorder_from with its postorder_parent trick, Hartigan loop, ancestral state
+   choice, explicit preorder stack with transition_parent and the transition counter)
+   returns exactly what the rose-tree model returns. *)
 Theorem c_map_mutations_eq_rose :
   forall (fx : bool) (ta : tree_arrays) (g : list Z) (anc : option Z) (os0 : list N) (na0 nm : Z)
          (roots : list tree),
@@ -199,18 +130,39 @@ Theorem c_map_mutations_eq_rose :
   end.
 Proof. exact c_map_mutations_eq_rose_lemma. Qed.
 
-(* END TO END: the whole property for the C function over the arrays.  Hypotheses are about
-   the input only: the genotypes pass the entry checks ([init_sets ... = Ok], at least one
-   non-missing), a fixed ancestral state is in range, the arrays are those of a tree
-   ([arrays_okb]).  Conclusion: the function returns (a, tr) — it terminates, with no
-   out-of-bounds access in the model — such that painting reproduces every non-missing
-   observation, the order / parent links are valid for a mutation table, no transition sits
-   below a unary non-sample node, there are at most as many transitions as non-missing
-   samples, and — for the repaired code (fx = true) always, for the pinned code (fx = false)
-   when no internal sample has a missing genotype (finding F2) — the number of transitions is
-   the minimum over ALL labelings of the forest consistent with the data (the fixed ancestral
-   state when one is supplied), the minimum is attained, and no transition sits below a
-   unary sample with missing data either. *)
+(* END TO END, for [c_map_mutations] — the array function the correspondence evaluates
+   against the implementation on every case.  Hypotheses are about the input only: the
+   genotypes pass the entry checks ([init_sets ... = Ok], at least one non-missing), a fixed
+   ancestral state is in range, the arrays are those of a tree ([arrays_okb]).  Conclusion:
+   the function returns (a, tr) — it terminates, with no out-of-bounds access in the model —
+   such that painting reproduces every non-missing observation, the order / parent links are
+   valid for a mutation table, no transition sits below a unary node whose state is
+   unconstrained, there are at most as many transitions as non-missing samples, and the
+   number of transitions is the minimum over ALL labelings of the forest consistent with the
+   data (with the fixed ancestral state when one is supplied), attained. *)
+Theorem c_map_mutations_property :
+  forall (ta : tree_arrays) (g : list Z) (anc : option Z) (os0 : list N) (na0 nm : Z) (roots : list tree),
+  init_sets c20_missing_through_hartigan (ta_samples ta) g (repeat 0%N (S (length (ta_flags ta)))) 0%Z 0%Z
+    = Ok (os0, na0, nm) ->
+  nm <> 0%Z ->
+  match anc with Some a => (0 <= a < c20_hartigan_max_alleles)%Z | None => True end ->
+  rose_of_arrays ta g = Ok roots ->
+  arrays_okb ta roots = true ->
+  exists a tr,
+    c_map_mutations ta g anc = Ok (Z.of_N a, tr) /\
+    match anc with Some x => Z.of_N a = x | None => True end /\
+    consistent_list roots (map (fun r => paint tr r a) roots) = true /\
+    parents_before tr 0 = true /\ forallb (fun r => parents_ok tr r (-1)) roots = true /\
+    nodupb (map tr_node tr) = true /\
+    forallb (unary_ok false tr) roots = true /\
+    (length tr <= forest_num_obs roots)%nat /\
+    (forall a' ls, match anc with Some x => a' = Z.to_N x | None => True end ->
+        consistent_list roots ls = true -> (length tr <= forest_changes a' ls)%nat) /\
+    (exists ls, consistent_list roots ls = true /\ forest_changes a ls = length tr).
+Proof. exact c_map_mutations_property_lemma. Qed.
+
+(* The same with the variant explicit (historical record for fx = false, the pinned code:
+   optimality and the unary rule below missing samples need "no internal sample is missing"). *)
 Theorem c_map_mutations_sound :
   forall (fx : bool) (ta : tree_arrays) (g : list Z) (anc : option Z) (os0 : list N) (na0 nm : Z)
          (roots : list tree),
@@ -233,3 +185,33 @@ Theorem c_map_mutations_sound :
        (exists ls, consistent_list roots ls = true /\ forest_changes a ls = length tr) /\
        forallb (unary_ok false tr) roots = true).
 Proof. exact c_map_mutations_sound_lemma. Qed.
+
+(* ---- historical record: the PINNED (pre-fix) variant [mm_rose] on the original tree ---- *)
+(* optimal only when no internal sample has a missing genotype ... *)
+Theorem mm_pinned_optimal : forall (K : nat) (roots : list tree) (anc : option N) (a : N) (tr : list trans),
+  (1 <= K <= 64)%nat -> forallb (obs_lt K) roots = true ->
+  forallb no_internal_missing roots = true ->
+  match anc with Some x => (x < N.of_nat K)%N | None => True end ->
+  mm_rose K roots anc = Some (a, tr) ->
+  (forall a' ls, match anc with Some x => a' = x | None => True end ->
+      consistent_list roots ls = true -> (length tr <= forest_changes a' ls)%nat) /\
+  (exists ls, consistent_list roots ls = true /\ forest_changes a ls = length tr).
+Proof. exact mm_optimal_lemma. Qed.
+
+(* ... F2: without that proviso the pinned variant is not optimal ([mm_rose] applied to the
+   tree itself, not to [demote]: this is NOT the current model) ... *)
+Theorem mm_optimal_internal_missing_pinned_refuted :
+  exists (K : nat) (roots : list tree) (a : N) (tr : list trans) (ls : list ltree),
+    forallb (obs_lt K) roots = true /\ nodupb (forest_ids roots) = true /\
+    mm_rose K roots None = Some (a, tr) /\
+    consistent_list roots ls = true /\
+    (forest_changes a ls < length tr)%nat.
+Proof. exact mm_optimal_internal_missing_refuted_lemma. Qed.
+
+(* ... and does not use the oldest node of a unary chain *)
+Theorem mm_oldest_internal_missing_pinned_refuted :
+  exists (K : nat) (roots : list tree) (a : N) (tr : list trans),
+    forallb (obs_lt K) roots = true /\ nodupb (forest_ids roots) = true /\
+    mm_rose K roots None = Some (a, tr) /\
+    forallb (unary_ok false tr) roots = false.
+Proof. exact mm_oldest_internal_missing_refuted_lemma. Qed.
